@@ -444,4 +444,298 @@ theorem xmlChars_injective (d1 d2 : List Node) (h1 : ∀ n ∈ d1, SafeNode n) (
   rw [he, b] at a
   exact (Option.some.inj a).symm
 
+
+/-! ## DOT: the same for `to_dot`
+
+`Rs.dotChars doc` is the text of `to_dot`, character by character. `readDot` is a strict reader of that format; it gives
+back the document (`readDot_dotChars`), so the DOT text determines the document too. -/
+
+/-- `  vV -> vT [label="LABEL"ATTRS];` of the vertex `v` -/
+def readDotEdge (v : Nat) (l : List Char) : Option (Label × Nat) :=
+  match stripPrefix dV l with
+  | none => none
+  | some r =>
+    match readNat r with
+    | none => none
+    | some (src, r1) =>
+      match stripPrefix dArrow r1 with
+      | none => none
+      | some r2 =>
+        match readNat r2 with
+        | none => none
+        | some (t, r3) =>
+          match stripPrefix dLabel r3 with
+          | none => none
+          | some r4 =>
+            match Lb.parse (r4.takeWhile (· != '"')) with
+            | none => none
+            | some a =>
+              if src = v ∧ r4.dropWhile (· != '"') = '"' :: (dotAttrs a ++ dEEnd) then some (a, t) else none
+
+theorem readDotEdge_line (v : Nat) (e : Label × Nat) (h : SafeLabel e.1) : readDotEdge v (dotEdgeLine v e) = some e := by
+  unfold readDotEdge dotEdgeLine
+  simp only [List.append_assoc]
+  rw [stripPrefix_append]
+  have a1 : dArrow ++ (nat10 e.2 ++ (dLabel ++ (Lb.print e.1 ++ (['"'] ++ (dotAttrs e.1 ++ dEEnd))))) =
+      ' ' :: (['-', '>', ' ', 'v'] ++ (nat10 e.2 ++ (dLabel ++ (Lb.print e.1 ++ (['"'] ++ (dotAttrs e.1 ++ dEEnd)))))) := rfl
+  have k1 := readNat_nat10 v ' ' (['-', '>', ' ', 'v'] ++ (nat10 e.2 ++ (dLabel ++ (Lb.print e.1 ++ (['"'] ++ (dotAttrs e.1 ++ dEEnd)))))) (by decide)
+  rw [← a1] at k1
+  simp only [k1, stripPrefix_append]
+  have a2 : dLabel ++ (Lb.print e.1 ++ (['"'] ++ (dotAttrs e.1 ++ dEEnd))) =
+      ' ' :: (['[', 'l', 'a', 'b', 'e', 'l', '=', '"'] ++ (Lb.print e.1 ++ (['"'] ++ (dotAttrs e.1 ++ dEEnd)))) := rfl
+  have k2 := readNat_nat10 e.2 ' ' (['[', 'l', 'a', 'b', 'e', 'l', '=', '"'] ++ (Lb.print e.1 ++ (['"'] ++ (dotAttrs e.1 ++ dEEnd)))) (by decide)
+  rw [← a2] at k2
+  simp only [k2, stripPrefix_append]
+  have hq : ∀ c ∈ Lb.print e.1, (c != '"') = true := fun c hc => by simpa using h.noQuote c hc
+  have hs := takeWhile_append_stop (· != '"') (Lb.print e.1) '"' (dotAttrs e.1 ++ dEEnd) hq (by simp)
+  have a3 : Lb.print e.1 ++ (['"'] ++ (dotAttrs e.1 ++ dEEnd)) = Lb.print e.1 ++ '"' :: (dotAttrs e.1 ++ dEEnd) := rfl
+  simp only [a3, hs.1, hs.2, Lb.parse_print_label e.1 h.canon, true_and, if_true]
+
+theorem readDotEdge_foot (v : Nat) : readDotEdge v dFoot = none := by
+  simp [readDotEdge, stripPrefix, dV, dFoot]
+
+/-- `  vI[shape=circle,label="νI"]; ` or `  vI[shape=circle,label="νI",color="#f96900"]; /* HEX */` -/
+def readDotNodeLine (l : List Char) : Option (Nat × Option (List UInt8)) :=
+  match stripPrefix dV l with
+  | none => none
+  | some r =>
+    match readNat r with
+    | none => none
+    | some (i, r1) =>
+      match stripPrefix dShape r1 with
+      | none => none
+      | some r2 =>
+        match readNat r2 with
+        | none => none
+        | some (i2, r3) =>
+          if i2 ≠ i then none
+          else if r3 = dPlain then some (i, none)
+          else
+            match stripPrefix dColor r3 with
+            | none => none
+            | some r4 =>
+              if r4.dropWhile (· != ' ') = dCEnd then (HD.fromStr (r4.takeWhile (· != ' '))).map (fun bs => (i, some bs))
+              else none
+
+theorem readDotNodeLine_line (n : Node) : readDotNodeLine (dotNodeLine n) = some (n.id, n.data) := by
+  unfold readDotNodeLine dotNodeLine
+  simp only [List.append_assoc]
+  rw [stripPrefix_append]
+  cases hd : n.data with
+  | none =>
+    simp only
+    have a1 : dShape ++ (nat10 n.id ++ dPlain) = '[' :: (['s', 'h', 'a', 'p', 'e', '=', 'c', 'i', 'r', 'c', 'l', 'e', ',', 'l', 'a', 'b', 'e', 'l', '=', '"', 'ν'] ++ (nat10 n.id ++ dPlain)) := rfl
+    have k1 := readNat_nat10 n.id '[' (['s', 'h', 'a', 'p', 'e', '=', 'c', 'i', 'r', 'c', 'l', 'e', ',', 'l', 'a', 'b', 'e', 'l', '=', '"', 'ν'] ++ (nat10 n.id ++ dPlain)) (by decide)
+    rw [← a1] at k1
+    simp only [k1, stripPrefix_append]
+    have k2 : readNat (nat10 n.id ++ dPlain) = some (n.id, dPlain) := readNat_nat10 n.id '"' [']', ';', ' '] (by decide)
+    simp [k2]
+  | some bs =>
+    simp only
+    have a1 : dShape ++ (nat10 n.id ++ (dColor ++ (HD.print bs ++ dCEnd))) = '[' :: (['s', 'h', 'a', 'p', 'e', '=', 'c', 'i', 'r', 'c', 'l', 'e', ',', 'l', 'a', 'b', 'e', 'l', '=', '"', 'ν'] ++ (nat10 n.id ++ (dColor ++ (HD.print bs ++ dCEnd)))) := rfl
+    have k1 := readNat_nat10 n.id '[' (['s', 'h', 'a', 'p', 'e', '=', 'c', 'i', 'r', 'c', 'l', 'e', ',', 'l', 'a', 'b', 'e', 'l', '=', '"', 'ν'] ++ (nat10 n.id ++ (dColor ++ (HD.print bs ++ dCEnd)))) (by decide)
+    rw [← a1] at k1
+    simp only [k1, stripPrefix_append]
+    have a2 : dColor ++ (HD.print bs ++ dCEnd) = '"' :: ([',', 'c', 'o', 'l', 'o', 'r', '=', '"', '#', 'f', '9', '6', '9', '0', '0', '"', ']', ';', ' ', '/', '*', ' '] ++ (HD.print bs ++ dCEnd)) := rfl
+    have k2 := readNat_nat10 n.id '"' ([',', 'c', 'o', 'l', 'o', 'r', '=', '"', '#', 'f', '9', '6', '9', '0', '0', '"', ']', ';', ' ', '/', '*', ' '] ++ (HD.print bs ++ dCEnd)) (by decide)
+    rw [← a2] at k2
+    have np : dColor ++ (HD.print bs ++ dCEnd) ≠ dPlain := by simp [dColor, dPlain]
+    simp only [k2, ne_eq, not_true_eq_false, if_false, if_neg np, stripPrefix_append]
+    have hq : ∀ c ∈ HD.print bs, (c != ' ') = true := by
+      intro c hc
+      rcases print_chars bs c hc with rfl | ⟨h1, _⟩
+      · decide
+      · simpa using h1
+    have hs := takeWhile_append_stop (· != ' ') (HD.print bs) ' ' ['*', '/'] hq (by simp)
+    have a3 : HD.print bs ++ dCEnd = HD.print bs ++ ' ' :: ['*', '/'] := rfl
+    simp only [a3, hs.1, hs.2, HD.fromStr_print]
+    simp [dCEnd]
+
+theorem readDotEdge_nodeLine (v : Nat) (n : Node) : readDotEdge v (dotNodeLine n) = none := by
+  unfold readDotEdge dotNodeLine
+  simp only [List.append_assoc]
+  rw [stripPrefix_append]
+  have k1 : ∀ rest, readNat (nat10 n.id ++ (dShape ++ rest)) =
+      some (n.id, dShape ++ rest) := fun rest =>
+    readNat_nat10 n.id '[' (['s', 'h', 'a', 'p', 'e', '=', 'c', 'i', 'r', 'c', 'l', 'e', ',', 'l', 'a', 'b', 'e', 'l', '=', '"', 'ν'] ++ rest) (by decide)
+  simp only [k1]
+  simp [stripPrefix, dArrow, dShape]
+
+def readDotEdges (v : Nat) : List (List Char) → List (Label × Nat) × List (List Char)
+  | [] => ([], [])
+  | l :: ls => match readDotEdge v l with
+    | some e => let r := readDotEdges v ls; (e :: r.1, r.2)
+    | none => ([], l :: ls)
+
+theorem readDotEdges_lines (v : Nat) (es : List (Label × Nat)) (h : ∀ e ∈ es, SafeLabel e.1) (x : List Char)
+    (rest : List (List Char)) (hx : readDotEdge v x = none) :
+    readDotEdges v (es.map (dotEdgeLine v) ++ x :: rest) = (es, x :: rest) := by
+  induction es with
+  | nil => simp [readDotEdges, hx]
+  | cons e es ih =>
+    have := ih (fun y hy => h y (List.mem_cons_of_mem _ hy))
+    simp [readDotEdges, readDotEdge_line v e (h e (List.mem_cons_self ..)), this]
+
+def readDotNode : List (List Char) → Option (Node × List (List Char))
+  | [] => none
+  | l :: ls =>
+    match readDotNodeLine l with
+    | none => none
+    | some (i, d) => let es := readDotEdges i ls; some (⟨i, es.1, d⟩, es.2)
+
+/-- the first line after the lines of a node: the next node or the closing brace -/
+theorem readDotNode_lines (n : Node) (h : SafeNode n) (x : List Char) (rest : List (List Char))
+    (hx : readDotEdge n.id x = none) : readDotNode (dotNodeLines n ++ x :: rest) = some (n, x :: rest) := by
+  obtain ⟨i, es, d⟩ := n
+  unfold dotNodeLines
+  simp only [List.cons_append, readDotNode, readDotNodeLine_line]
+  rw [readDotEdges_lines i es h x rest hx]
+
+def readDotNodes : Nat → List (List Char) → Option (List Node)
+  | 0, _ => none
+  | fuel + 1, ls =>
+    match ls with
+    | [l] => if l = dFoot then some [] else none
+    | _ =>
+      match readDotNode ls with
+      | none => none
+      | some (n, rest) => (readDotNodes fuel rest).map (n :: ·)
+
+theorem readDotNodes_lines (doc : List Node) (h : ∀ n ∈ doc, SafeNode n) (fuel : Nat) (hf : doc.length < fuel) :
+    readDotNodes fuel (doc.flatMap dotNodeLines ++ [dFoot]) = some doc := by
+  induction doc generalizing fuel with
+  | nil =>
+    cases fuel with
+    | zero => omega
+    | succ f => simp [readDotNodes]
+  | cons n ns ih =>
+    cases fuel with
+    | zero => omega
+    | succ f =>
+      -- what follows the lines of `n`: the node line of the next vertex, or the closing brace
+      obtain ⟨x, rest, hx, hnext⟩ : ∃ x rest, ns.flatMap dotNodeLines ++ [dFoot] = x :: rest ∧ readDotEdge n.id x = none := by
+        cases ns with
+        | nil => exact ⟨dFoot, [], rfl, readDotEdge_foot _⟩
+        | cons m ms =>
+          refine ⟨dotNodeLine m, m.edges.map (dotEdgeLine m.id) ++ (ms.flatMap dotNodeLines ++ [dFoot]), ?_, readDotEdge_nodeLine _ m⟩
+          simp [dotNodeLines]
+      have e : (n :: ns).flatMap dotNodeLines ++ [dFoot] = dotNodeLines n ++ x :: rest := by
+        simp only [List.flatMap_cons, List.append_assoc]; rw [hx]
+      rw [e]
+      have hn := readDotNode_lines n (h n (List.mem_cons_self ..)) x rest hnext
+      have two : ∀ l, dotNodeLines n ++ x :: rest ≠ [l] := by
+        intro l hl
+        have := congrArg List.length hl
+        simp [dotNodeLines] at this
+      unfold readDotNodes
+      split
+      · rename_i l heq; exact absurd heq (two l)
+      · rw [hn]
+        simp only [Option.map_eq_some_iff]
+        refine ⟨ns, ?_, rfl⟩
+        rw [← hx]
+        exact ih (fun y hy => h y (List.mem_cons_of_mem _ hy)) f (by simp at hf; omega)
+
+/-- the strict reader of the whole DOT text -/
+def readDot (text : List Char) : Option (List Node) :=
+  match splitLines text [] with
+  | (h1 :: h2 :: h3 :: h4 :: rest, []) =>
+    if h1 = dH1 ∧ h2 = dH2 ∧ h3 = dH3 ∧ h4 = dH4 then readDotNodes (rest.length + 1) rest else none
+  | _ => none
+
+theorem dotNodeLines_noNl (n : Node) (h : SafeNode n) : ∀ l ∈ dotNodeLines n, ∀ c ∈ l, c ≠ '\n' := by
+  have fixed : ∀ (k : List Char), k ∈ [dV, dShape, dPlain, dColor, dCEnd, dArrow, dLabel, dGray, dDash, dEEnd, ['"']] → ∀ c ∈ k, c ≠ '\n' := by decide
+  have attrs : ∀ a : Label, ∀ c ∈ dotAttrs a, c ≠ '\n' := by
+    intro a c hc
+    unfold dotAttrs at hc
+    simp only [List.mem_append] at hc
+    rcases hc with hc | hc
+    · cases a with
+      | greek g =>
+        simp only at hc
+        split at hc
+        · exact fixed dGray (by simp) c hc
+        · cases hc
+      | alpha _ => cases hc
+      | str _ => cases hc
+    · cases a with
+      | greek g =>
+        simp only at hc
+        split at hc
+        · exact fixed dDash (by simp) c hc
+        · cases hc
+      | alpha _ => cases hc
+      | str _ => cases hc
+  intro l hl c hc
+  unfold dotNodeLines at hl
+  rcases List.mem_cons.1 hl with rfl | hl
+  · unfold dotNodeLine at hc
+    simp only [List.mem_append] at hc
+    rcases hc with (((hc | hc) | hc) | hc) | hc
+    · exact fixed dV (by simp) c hc
+    · exact nat10_noNl _ c hc
+    · exact fixed dShape (by simp) c hc
+    · exact nat10_noNl _ c hc
+    · cases hd : n.data with
+      | none => rw [hd] at hc; exact fixed dPlain (by simp) c hc
+      | some bs =>
+        rw [hd] at hc
+        simp only [List.mem_append] at hc
+        rcases hc with (hc | hc) | hc
+        · exact fixed dColor (by simp) c hc
+        · rcases print_chars bs c hc with rfl | ⟨_, _, h3, _⟩
+          · decide
+          · exact h3
+        · exact fixed dCEnd (by simp) c hc
+  · obtain ⟨e, he, rfl⟩ := List.mem_map.1 hl
+    unfold dotEdgeLine at hc
+    simp only [List.mem_append] at hc
+    rcases hc with (((((((hc | hc) | hc) | hc) | hc) | hc) | hc) | hc) | hc
+    · exact fixed dV (by simp) c hc
+    · exact nat10_noNl _ c hc
+    · exact fixed dArrow (by simp) c hc
+    · exact nat10_noNl _ c hc
+    · exact fixed dLabel (by simp) c hc
+    · exact (h e he).noNl c hc
+    · exact fixed ['"'] (by simp) c hc
+    · exact attrs e.1 c hc
+    · exact fixed dEEnd (by simp) c hc
+
+theorem dotLines_noNl (doc : List Node) (h : ∀ n ∈ doc, SafeNode n) : ∀ l ∈ dotLines doc, ∀ c ∈ l, c ≠ '\n' := by
+  have fixed : ∀ (k : List Char), k ∈ [dH1, dH2, dH3, dH4, dFoot] → ∀ c ∈ k, c ≠ '\n' := by decide
+  intro l hl c hc
+  unfold dotLines at hl
+  simp only [List.mem_append, List.mem_cons, List.mem_flatMap, List.not_mem_nil, or_false] at hl
+  rcases hl with ((rfl | rfl | rfl | rfl) | ⟨n, hn, hl⟩) | rfl
+  · exact fixed dH1 (by simp) c hc
+  · exact fixed dH2 (by simp) c hc
+  · exact fixed dH3 (by simp) c hc
+  · exact fixed dH4 (by simp) c hc
+  · exact dotNodeLines_noNl n (h n hn) l hl c hc
+  · exact fixed dFoot (by simp) c hc
+
+theorem length_le_flatMap_dot (doc : List Node) : doc.length ≤ (doc.flatMap dotNodeLines).length := by
+  induction doc with
+  | nil => simp
+  | cons n ns ih =>
+    simp only [List.flatMap_cons, List.length_append, dotNodeLines, List.length_cons]
+    omega
+
+/-- **the DOT text reads back as the document** -/
+theorem readDot_dotChars (doc : List Node) (h : ∀ n ∈ doc, SafeNode n) : readDot (dotChars doc) = some doc := by
+  unfold readDot dotChars
+  rw [splitLines_unlines _ (dotLines_noNl doc h)]
+  unfold dotLines
+  simp only [List.cons_append, List.nil_append, and_self, if_true]
+  have hl := length_le_flatMap_dot doc
+  have := readDotNodes_lines doc h ((doc.flatMap dotNodeLines ++ [dFoot]).length + 1) (by simp at hl ⊢; omega)
+  simpa using this
+
+theorem dotChars_injective (d1 d2 : List Node) (h1 : ∀ n ∈ d1, SafeNode n) (h2 : ∀ n ∈ d2, SafeNode n)
+    (he : dotChars d1 = dotChars d2) : d1 = d2 := by
+  have a := readDot_dotChars d1 h1
+  have b := readDot_dotChars d2 h2
+  rw [he, b] at a
+  exact (Option.some.inj a).symm
+
 end Rs
